@@ -173,7 +173,7 @@ func c01buf(p *Program, r *Report, rule string) {
 			continue
 		}
 		r.UseFunc(fname)
-		for _, b := range fn.Blocks {
+		for _, b := range p.blocksOf(fn) {
 			for _, in := range b.Instrs {
 				switch x := in.(type) {
 				case *ssa.Store:
@@ -395,7 +395,7 @@ func c01tail(p *Program, r *Report, rule string) {
 		if fn := p.Func("trimLastFourBytesWriter.Write"); fn != nil {
 			bad := ""
 			n := 0
-			for _, b := range fn.Blocks {
+			for _, b := range p.blocksOf(fn) {
 				for _, in := range b.Instrs {
 					var ops []*ssa.Value
 					for _, op := range in.Operands(ops) {
